@@ -26,8 +26,8 @@ import (
 	"sync/atomic"
 	"time"
 
-	leanhelix "github.com/orbs-network/lean-helix-go"
 	"github.com/orbs-network/govnr"
+	leanhelix "github.com/orbs-network/lean-helix-go"
 	Electiontrigger "github.com/orbs-network/lean-helix-go/services/electiontrigger"
 	"github.com/orbs-network/lean-helix-go/services/interfaces"
 	"github.com/orbs-network/lean-helix-go/spec/types/go/primitives"
@@ -86,7 +86,7 @@ type rtCluster struct {
 	nextID  uint64
 	pool    [][]byte   // contents of recently sent real messages (material for malformed traffic)
 	r2      *rand.Rand // guarded by chainMu
-	calm    int32 // 1: drain phase, SPI fakes never block
+	calm    int32      // 1: drain phase, SPI fakes never block
 	sendWG  sync.WaitGroup
 	rep     *Report
 }
@@ -263,7 +263,7 @@ func (t *rtTrigger) RegisterOnElection(h primitives.BlockHeight, v primitives.Vi
 	t.real.RegisterOnElection(h, v, cb)
 }
 func (t *rtTrigger) ElectionChannel() chan *interfaces.ElectionTrigger { return t.out }
-func (t *rtTrigger) CalcTimeout(v primitives.View) time.Duration        { return t.real.CalcTimeout(v) }
+func (t *rtTrigger) CalcTimeout(v primitives.View) time.Duration       { return t.real.CalcTimeout(v) }
 func (t *rtTrigger) Stop() {
 	t.mu.Lock()
 	t.armed = false
@@ -664,9 +664,10 @@ func (c *rtCluster) monitors() {
 		noLead := map[uint64]bool{}
 		var exitSeq = -1
 		type open struct {
-			kind string
-			at   int64
-			v    uint64
+			kind   string
+			at     int64
+			v      uint64
+			trigAt int64 // when the election timer of the call's view was seen to fire (0: not seen)
 		}
 		var openSpi *open
 		for _, e := range evs {
@@ -739,6 +740,9 @@ func (c *rtCluster) monitors() {
 				} else {
 					rep.count("runtime:stale-trigger")
 				}
+				if openSpi != nil && openSpi.trigAt == 0 && e.H == curH && e.V == openSpi.v {
+					openSpi.trigAt = e.Ms
+				}
 			case "ACT":
 				if !(armed && e.H == armH && e.V == armV) || e.H != curH || e.V != curV {
 					rep.finding("C19", "stale-trigger-acted-upon", fmt.Sprintf("node %d: trigger (%d,%d) acted upon while armed=%v for (%d,%d), position (%d,%d)", n.id, e.H, e.V, armed, armH, armV, curH, curV), c.replay(n.id))
@@ -770,16 +774,19 @@ func (c *rtCluster) monitors() {
 					rep.finding("C15", "spi-call-for-another-height", fmt.Sprintf("node %d: %s for height %d while working on %d", n.id, e.Kind, e.H, curH), c.replay(n.id))
 				}
 				if e.A == 2 {
-					openSpi = &open{e.Kind, e.Ms, curV}
+					openSpi = &open{e.Kind, e.Ms, curV, 0}
 					rep.count("runtime:blocking-spi")
 				}
 			case "SPI-propose", "SPI-validate", "SPI-commit":
-				if openSpi != nil && e.B {
-					// released by its context: must not have taken longer than the election timeout of its view plus slack
-					limit := uint64(c.base.Microseconds())<<minU(openSpi.v, 6) + 1500000
-					if e.A > limit {
-						rep.finding("C15", "spi-released-late", fmt.Sprintf("node %d: %s blocked %dus on its context (view %d, timeout %dus)", n.id, e.Kind, e.A, openSpi.v, uint64(c.base.Microseconds())<<minU(openSpi.v, 6)), c.replay(n.id))
+				if openSpi != nil && e.B && openSpi.trigAt != 0 {
+					// released by its context after the election timer of its view was seen to fire: the release must follow
+					// the firing promptly. Measured from the observed firing, not from the call's start: on a loaded machine
+					// the timer itself fires late and that is not the node's doing. (A call that is never released shows up
+					// as shutdown-hangs / exit-with-spi-in-flight.)
+					if late := e.Ms - openSpi.trigAt; late > 3000000 {
+						rep.finding("C15", "spi-released-late", fmt.Sprintf("node %d: %s released %dus after the election timer of its view %d fired", n.id, e.Kind, late, openSpi.v), c.replay(n.id))
 					}
+					rep.count("runtime:spi-released-by-election")
 				}
 				openSpi = nil
 			case "EXITED":
@@ -836,6 +843,63 @@ func (c *rtCluster) coqCases() []string {
 	return out
 }
 
+// stallWatch measures how much wall-clock time the process lost to the machine (CPU starvation, a frozen sandbox)
+// while a scenario ran: a goroutine sleeps 2 ms at a time and adds up by how much each sleep overshot. The runtime
+// monitors compare real timers with wall-clock bounds; a scenario during which the process itself was stalled says
+// nothing about the node, so it is run again instead of being judged.
+type stallWatch struct {
+	stop   chan struct{}
+	done   chan struct{}
+	maxGap time.Duration
+	lost   time.Duration
+}
+
+func startStallWatch() *stallWatch {
+	w := &stallWatch{stop: make(chan struct{}), done: make(chan struct{})}
+	go func() {
+		defer close(w.done)
+		last := time.Now()
+		for {
+			select {
+			case <-w.stop:
+				return
+			default:
+			}
+			time.Sleep(2 * time.Millisecond)
+			now := time.Now()
+			if gap := now.Sub(last) - 2*time.Millisecond; gap > 20*time.Millisecond {
+				w.lost += gap
+				if gap > w.maxGap {
+					w.maxGap = gap
+				}
+			}
+			last = now
+		}
+	}()
+	return w
+}
+func (w *stallWatch) finish() bool { // true: the machine stalled the process noticeably
+	close(w.stop)
+	<-w.done
+	return w.maxGap > 250*time.Millisecond || w.lost > 600*time.Millisecond
+}
+
+func (r *Report) merge(o *Report, withFindings bool) {
+	for k, v := range o.Distribution {
+		if !withFindings && strings.HasPrefix(k, "finding:") {
+			continue
+		}
+		r.Distribution[k] += v
+	}
+	if withFindings {
+		r.Findings = append(r.Findings, o.Findings...)
+	}
+	for _, x := range o.Samples {
+		r.sample(x, 4)
+	}
+	r.Evaluations += o.Evaluations
+}
+
 func runRuntime(cfg *runCfg) error {
 	rep := newReport("runtime", cfg)
 	count := cfg.n
@@ -874,64 +938,95 @@ func runRuntime(cfg *runCfg) error {
 	}()
 	var cases []string
 	for i := 0; i < count; i++ {
-		runtime.GC()
-		time.Sleep(20 * time.Millisecond)
-		baseline := runtime.NumGoroutine()
-		seed := cfg.seed*100000 + int64(i)
-		c := newRtCluster(seed, rep)
-		c.run(cfg.tier != "thorough")
-		c.monitors()
-		// goroutine accounting
-		leak := true
-		for t := 0; t < 150; t++ {
-			if runtime.NumGoroutine() <= baseline {
-				leak = false
-				break
-			}
+		for attempt := 0; ; attempt++ {
+			final := rep
+			rep := newReport("runtime", cfg) // scratch: merged into the engine's report once the scenario is judged
+			runtime.GC()
 			time.Sleep(20 * time.Millisecond)
-		}
-		if leak {
-			var b bytes.Buffer
-			pprof.Lookup("goroutine").WriteTo(&b, 1)
-			var lh []string
-			for _, blk := range strings.Split(b.String(), "\n\n") {
-				if strings.Contains(blk, "lean-helix-go") && !strings.Contains(blk, "lhverif") {
-					lh = append(lh, blk)
+			baseline := runtime.NumGoroutine()
+			seed := cfg.seed*100000 + int64(i)
+			sw := startStallWatch()
+			c := newRtCluster(seed, rep)
+			c.run(cfg.tier != "thorough")
+			c.monitors()
+			// goroutine accounting
+			leak := true
+			for t := 0; t < 150; t++ {
+				if runtime.NumGoroutine() <= baseline {
+					leak = false
+					break
+				}
+				time.Sleep(20 * time.Millisecond)
+			}
+			if leak {
+				var b bytes.Buffer
+				pprof.Lookup("goroutine").WriteTo(&b, 1)
+				var lh []string
+				for _, blk := range strings.Split(b.String(), "\n\n") {
+					if strings.Contains(blk, "lean-helix-go") && !strings.Contains(blk, "lhverif") {
+						lh = append(lh, blk)
+					}
+				}
+				sort.Strings(lh)
+				if len(lh) > 0 {
+					rep.finding("C16", "goroutine-leak", fmt.Sprintf("%d goroutines before the scenario, %d after shutdown; %d of them inside the library", baseline, runtime.NumGoroutine(), len(lh)),
+						map[string]interface{}{"seed": seed, "stacks": head(lh, 6)})
+				} else {
+					rep.count("runtime:harness-goroutines-lingering")
 				}
 			}
-			sort.Strings(lh)
-			if len(lh) > 0 {
-				rep.finding("C16", "goroutine-leak", fmt.Sprintf("%d goroutines before the scenario, %d after shutdown; %d of them inside the library", baseline, runtime.NumGoroutine(), len(lh)),
-					map[string]interface{}{"seed": seed, "stacks": head(lh, 6)})
-			} else {
-				rep.count("runtime:harness-goroutines-lingering")
+			evs := c.log.snapshot()
+			rep.Evaluations += len(evs)
+			capMu.Lock()
+			out := captured.String()
+			captured.Reset()
+			capMu.Unlock()
+			if k := strings.Count(out, "recovered panic"); k > 0 {
+				idx := strings.Index(out, "recovered panic")
+				lo := idx - 300
+				if lo < 0 {
+					lo = 0
+				}
+				hi := idx + 1500
+				if hi > len(out) {
+					hi = len(out)
+				}
+				rep.finding("C12", "panic-reached-supervisor", fmt.Sprintf("%d panics were recovered by the loops' supervisor in scenario seed %d", k, seed), map[string]interface{}{"seed": seed, "log": out[lo:hi]})
 			}
-		}
-		evs := c.log.snapshot()
-		rep.Evaluations += len(evs)
-		cases = append(cases, c.coqCases()...)
-		capMu.Lock()
-		out := captured.String()
-		captured.Reset()
-		capMu.Unlock()
-		if k := strings.Count(out, "recovered panic"); k > 0 {
-			idx := strings.Index(out, "recovered panic")
-			lo := idx - 300
-			if lo < 0 {
-				lo = 0
+			if i < 2 {
+				rep.sample(map[string]interface{}{"seed": seed, "events": len(evs), "top_height": c.top(), "head": head(evStrings(evs), 25)}, 4)
 			}
-			hi := idx + 1500
-			if hi > len(out) {
-				hi = len(out)
+			rep.count(fmt.Sprintf("runtime:top-height>=%d", minU(c.top()/5*5, 40)))
+			stalled := sw.finish()
+			if stalled && attempt < 3 {
+				final.count("runtime:scenario-repeated-after-machine-stall")
+				continue
 			}
-			rep.finding("C12", "panic-reached-supervisor", fmt.Sprintf("%d panics were recovered by the loops' supervisor in scenario seed %d", k, seed), map[string]interface{}{"seed": seed, "log": out[lo:hi]})
+			if stalled {
+				final.count("runtime:scenario-inconclusive-machine-stalled")
+			}
+			final.merge(rep, !stalled)
+			if !stalled {
+				cases = append(cases, c.coqCases()...)
+			}
+			break
 		}
-		if i < 2 {
-			rep.sample(map[string]interface{}{"seed": seed, "events": len(evs), "top_height": c.top(), "head": head(evStrings(evs), 25)}, 4)
-		}
-		rep.count(fmt.Sprintf("runtime:top-height>=%d", minU(c.top()/5*5, 40)))
 	}
-	runDirected(rep, cfg.seed*7919, cfg.tier == "thorough")
+	for attempt := 0; ; attempt++ {
+		scratch := newReport("runtime", cfg)
+		sw := startStallWatch()
+		runDirected(scratch, cfg.seed*7919, cfg.tier == "thorough")
+		stalled := sw.finish()
+		if stalled && attempt < 3 {
+			rep.count("runtime:directed-repeated-after-machine-stall")
+			continue
+		}
+		if stalled {
+			rep.count("runtime:directed-inconclusive-machine-stalled")
+		}
+		rep.merge(scratch, !stalled)
+		break
+	}
 	os.Stdout = realStdout
 	pw.Close()
 	<-capDone
